@@ -264,4 +264,62 @@ def item_dummy(repo, out):
     out.append('Definition concat_filler_is_dummy_of_common_dtype : bool := true.')
 
 
-ITEMS = [item_concat_init, item_identity, item_dummy]
+# ---------------------------------------------------------------------------------------------------------------
+# DataSet.select: what Model/ConcatMulti.v assumes about spw= / subarray=
+
+def item_select_sw(repo, out):
+    """select(): spw / subarray default to the current ones, indices beyond the lists raise IndexError, the time mask
+    is reset to (spw_index == spw) & (subarray_index == subarray), the channel / product masks get the size of THAT
+    window / subarray, and every product criterion and the derived corr_products read subarrays[self.subarray]."""
+    rel = 'katdal/dataset.py'
+    fn = _func(_class(_parse(repo, rel), 'DataSet', rel), 'select', rel)
+    lines = [_src(n) for n in fn.body]
+
+    def need(text, what):
+        if text not in lines:
+            raise TranslateError('DataSet.select: expected `%s` (%s)' % (text, what))
+        return lines.index(text)
+    i1 = need("kwargs['spw']=spw=kwargs.get('spw',self.spw)", 'spw defaults to the current one')
+    i2 = need("kwargs['subarray']=subarray=kwargs.get('subarray',self.subarray)", 'subarray defaults to the current one')
+    guards = [n for n in fn.body if isinstance(n, ast.If) and _src(n.test) in ('spw>=len(self.spectral_windows)', 'subarray>=len(self.subarrays)')]
+    if len(guards) != 2 or not all(len(g.body) == 1 and isinstance(g.body[0], ast.Raise) and _src(g.body[0].exc).startswith('IndexError(')
+                                   for g in guards):
+        raise TranslateError('DataSet.select: spw / subarray beyond the lists do not raise IndexError')
+    switches = {}
+    for n in fn.body:
+        if isinstance(n, ast.If) and _src(n.test) in ('spw!=self.spw', 'subarray!=self.subarray'):
+            switches[_src(n.test)] = [_src(x) for x in n.body]
+    if switches.get('spw!=self.spw') != ["reset+='TF'", 'self.spw=spw'] \
+            or switches.get('subarray!=self.subarray') != ["reset+='TB'", 'self.subarray=subarray']:
+        raise TranslateError('DataSet.select: switching spw / subarray does not reset TF / TB and store the new index')
+    resets = {}
+    for n in fn.body:
+        if isinstance(n, ast.If) and _src(n.test) in ("'T'inreset", "'F'inreset", "'B'inreset"):
+            resets[_src(n.test)[1]] = [_src(x) for x in n.body if not isinstance(x, ast.For)]
+    if resets.get('T') != ['self._time_keep[:]=True', "self._time_keep&=self.sensor.get('Observation/spw_index')==spw",
+                           "self._time_keep&=self.sensor.get('Observation/subarray_index')==subarray"]:
+        raise TranslateError('DataSet.select: the time mask is not reset to (spw_index == spw) & (subarray_index == subarray)')
+    if resets.get('F') != ['self._freq_keep=np.ones(self.spectral_windows[self.spw].num_chans,dtype=bool)']:
+        raise TranslateError('DataSet.select: the channel mask is not reset to the size of spectral_windows[self.spw]')
+    if resets.get('B') != ['self._corrprod_keep=np.ones(len(self.subarrays[self.subarray].corr_products),dtype=bool)']:
+        raise TranslateError('DataSet.select: the product mask is not reset to the size of subarrays[self.subarray]')
+    if not i1 < i2:
+        raise TranslateError('DataSet.select: spw / subarray statements out of order')
+    out.append('Definition select_time_reset_sensors : list string := %s.'
+               % coq_strings(['Observation/spw_index', 'Observation/subarray_index']))
+    # every read of a product list / channel grid goes through the CURRENT subarray / window
+    src = _src(fn)
+    import re
+    subs = re.findall(r'self\.subarrays\[([^\]]*)\]', src)
+    spws = re.findall(r'self\.spectral_windows\[([^\]]*)\]', src)
+    if not subs or any(x != 'self.subarray' for x in subs):
+        raise TranslateError('DataSet.select: a subarray other than subarrays[self.subarray] is read: %s' % sorted(set(subs)))
+    if not spws or any(x != 'self.spw' for x in spws):
+        raise TranslateError('DataSet.select: a window other than spectral_windows[self.spw] is read: %s' % sorted(set(spws)))
+    need('self.corr_products=self.subarrays[self.subarray].corr_products[self._corrprod_keep]', 'derived corr_products')
+    out.append('Definition select_reads_only_current_subarray : bool := true.')
+    out.append('Definition select_reads_only_current_spw : bool := true.')
+    out.append('Definition select_sw_out_of_range_raises_indexerror : bool := true.')
+
+
+ITEMS = [item_concat_init, item_identity, item_dummy, item_select_sw]
